@@ -112,7 +112,15 @@ VLiftW(ev) ==
        IF a < 0 THEN Ok(Rejected(o), "interval-lift-by-type:refused-when-no-ancestor")
        ELSE LiftedOK(o, Ps, child, d, a, root, hasSeq, "interval-lift-by-type", ev[8])])
 
-Verdict(ev) == CASE ev[1] = "liftw" -> VLiftW(ev) [] ev[1] = "nchunk" -> VNested(ev) [] ev[1] = "lift1" -> VLift1(ev) [] ev[1] = "lift" -> VLift(ev) [] ev[1] = "chunk" -> VChunk(ev) [] OTHER -> "unknown-op"
+(* ["xlift", loc, relation, outcome <<"v", location, spliced sequence>>, spliced sequence before] : an interval lifted
+   from one whole chromosome with sequence onto another *)
+VXLift(ev) ==
+  LET l == ev[2] rel == ev[3] o == ev[4] IN
+  IF rel = "same" THEN
+     (IF ~IsVal(o) THEN "interval-liftover:equal-chromosome-refused"
+      ELSE Ok(o[2] = l /\ o[3] = ev[5], "interval-liftover:identity-on-equal-chromosome"))
+  ELSE Ok(Rejected(o), "interval-liftover:refused-on-a-different-chromosome")
+Verdict(ev) == CASE ev[1] = "xlift" -> VXLift(ev) [] ev[1] = "liftw" -> VLiftW(ev) [] ev[1] = "nchunk" -> VNested(ev) [] ev[1] = "lift1" -> VLift1(ev) [] ev[1] = "lift" -> VLift(ev) [] ev[1] = "chunk" -> VChunk(ev) [] OTHER -> "unknown-op"
 Bad == {i \in DOMAIN Trace : Verdict(Trace[i]) # "ok"}
 ASSUME \A i \in Bad : PrintT(<<"BAD", i, Verdict(Trace[i])>>)
 ASSUME PrintT(<<"DONE", Len(Trace), Cardinality(Bad)>>)
